@@ -63,12 +63,12 @@ def c19_2(R):
     R.require(len(news) == 1, "RingBuf::new in grow")
     u = B.ub(g, news[0].args[0])
     has_max = u is TOP or any(x[0] == "param" and x[1] == 2 for x in u) or any(x == ("call", "std::num::NonZero::get") for x in u)
-    t = trace(g, news[0].args[0])
     shape = False
-    if t.kind == "call" and call_matches(t.root[1], ("Ord::min",)):
-        a, b_ = trace(g, t.root[1].args[0], through_casts=False), trace(g, t.root[1].args[1])
-        if a.kind == "rv" and a.root[1].rv.kind == "bin" and a.root[1].rv.op.startswith("Mul") and a.root[1].rv.ops[1].scalar == 2 and b_.kind == "param" and b_.root[1] == 2:  # grow(self, max_size)
-            shape = True
+    sel = select_minmax(g, news[0].args[0])
+    if sel is not None and sel[0] == "min":
+        for a, b_ in ((sel[1], sel[2]), (sel[2], sel[1])):
+            if a.kind == "rv" and a.root[1].rv.kind == "bin" and a.root[1].rv.op.startswith("Mul") and a.root[1].rv.ops[1].scalar == 2 and b_.kind == "param" and b_.root[1] == 2:  # grow(self, max_size)
+                shape = True
     if shape:
         R.ok("new-cap=min(2cap,max)", g.name, "ub = " + fmt_ub(u))
     else:
